@@ -443,7 +443,7 @@ static struct Register {
 		addUnit<PolPlain<VThreading> >("C05/nested/vmutex", 0, nest, 4, 4, 1, 2);
 #endif
 #if SEL(5, 2)
-		addUnit<PolPlain<ST> >("C05/nested/single", 0, nest, 4, 5, 1, 2);
+		addUnit<PolPlain<ST> >("C05/nested/single", 0, nest, 4, 4, 1, 2);
 		addUnit<PolPlain<ST> >("C05/nested-consume/single", 0, nestC, 4, 4, 1, 2);
 #endif
 #if SEL(5, 3)
@@ -466,7 +466,8 @@ static struct Register {
 #endif
 #if SEL(13, 2)
 		{ Cfg c = flat; c.ordered = true; c.nKeys = 3; c.cmpKind = 2; c.K = 4;
-		  addUnit<PolOrdered<ST, CmpMod2> >("C13/flat/mod2-classes", 0, c, 5, 30, 0, 0);
+		  addUnit<PolOrdered<ST, CmpMod2> >("C13/flat/mod2-classes", 0, c, 5, 9, 0, 0);
+		  { Cfg c3 = c; c3.K = 3; addUnit<PolOrdered<ST, CmpMod2> >("C13/flat/mod2-classes-K3", 1, c3, 5, 30, 0, 0); }
 		  Cfg n = c; n.nested = true; n.K = 3;
 		  addUnit<PolOrdered<ST, CmpMod2> >("C13/nested/mod2-classes", 0, n, 4, 4, 1, 2); }
 #endif
